@@ -248,6 +248,8 @@ func (r *Run) Finish() int {
 				ok, why, withHist = true, why2, true
 				c.Sig += "(after-earlier-cases-in-one-process)"
 				c.Detail += "\nThe disagreement shows only after the earlier cases executed by the same process (kept in the replay file): the library keeps state between calls."
+			} else {
+				why += fmt.Sprintf("; with the %d earlier requests of its executor: %s", len(c.Hist), why2)
 			}
 		}
 		if !ok {
